@@ -72,6 +72,7 @@ package encoding
 // encoding (the exact space needed, not an over-approximation).
 //@ func verifLemma_C09_delta_uint64s
 //@   requires forall(j, 0, len(vs), 0 <= dpos(vs, j) && dpos(vs, j) <= len(buffer) && dpos(vs, j) + uvlen(dE(vs, j)) <= len(buffer), dpos(vs, j))
+//@   falsify len(buffer) >= 10*len(vs)
 
 // Zigzag coding is used abstractly in the sequence proofs: the two functions
 // are uninterpreted there, related only by the inverse law that
